@@ -141,7 +141,7 @@ def model(sd):
         w = sd.get('weighting')
         node = {'leaf': False, 'parts': parts, 'p': p, 'wkind': 'none',
                 'w': np.ones(n, dtype=LD), 'has_inner': True,
-                'has_norm': True, 'custom': None}
+                'has_norm': True, 'has_dist': True, 'custom': None}
         if w is not None:
             if w['type'] == 'const':
                 node['wkind'] = 'const'
@@ -158,10 +158,17 @@ def model(sd):
             node['has_inner'] = False
         if not all(c['has_norm'] for c in parts):
             node['has_norm'] = False
+        if node['custom'] in ('inner', 'inner_b') and not node['has_inner']:
+            # the named custom inner product is built from the components'
+            # inner products; without them neither it nor the norm and
+            # distance derived from it exist
+            node['has_norm'] = False
+            node['has_dist'] = False
         node['size'] = sum(c['size'] for c in parts)
         node['eps'] = max([c['eps'] for c in parts] or [_eps('float64')])
         node['complex'] = any(c['complex'] for c in parts) or \
-            sd.get('field') == 'complex'
+            sd.get('field') == 'complex' or (
+                sd.get('power') is not None and model(sd['base'])['complex'])
         return node
 
     shape = tuple(sd['shape'])
@@ -169,7 +176,7 @@ def model(sd):
     p = float(sd.get('exponent', 2.0))
     wkind, uw = _leaf_user_weight(sd, shape)
     node = {'leaf': True, 'p': p, 'wkind': wkind, 'has_inner': p == 2.0,
-            'has_norm': True, 'size': size, 'shape': shape,
+            'has_norm': True, 'has_dist': True, 'size': size, 'shape': shape,
             'eps': _eps(sd.get('dtype', 'float64')), 'custom': None,
             'complex': np.dtype(sd.get('dtype', 'float64')).kind == 'c',
             'bdry': False, 'cellvol': None, 'vol': None, 'default_w': False}
